@@ -881,6 +881,10 @@ def replay(ctx, case):
     if kind == 'lru-inherited':
         return inherited_case(case)
     if kind == 'prefixed':
+        if not case['path']:
+            # shrinking empties the search path: then the expected outcome is TemplateError, not
+            # what the reference of this stream (which walks a non-empty path) says
+            raise ValueError('not a search path')
         for e in case['path']:
             if not (isinstance(e, list) and len(e) == 2 and e[0] in ('D', 'P') and e[1] in range(3)):
                 raise ValueError('not a search path')
